@@ -43,13 +43,28 @@ def _via_update(name, attrs, alpha, M, groups):
     return est
 
 
+def snapshot(a):
+    """bit-for-bit picture of an argument (arrays: dtype, shape, values in C order, writeable flag; containers recursively)"""
+    if isinstance(a, np.ndarray):
+        return ("nd", str(a.dtype), a.shape, a.tobytes(), bool(a.flags.writeable))
+    if isinstance(a, (list, tuple)):
+        return (type(a).__name__,) + tuple(snapshot(x) for x in a)
+    return ("v", repr(a))
+
+
 def guarded(chk, key, rp, fn, *args, **kw):
-    """run the implementation on a valid input; an exception there is a concrete failing input (no value returned at all)"""
+    """run the implementation on a valid input; an exception there is a concrete failing input (no value returned at all);
+    every argument (arrays, groups) must be bit for bit what it was before the call"""
+    before = [snapshot(a) for a in args]
     try:
-        return fn(*args, **kw)
+        out = fn(*args, **kw)
     except Exception as e:  # noqa
         chk.fail(key + ":raised", f"{type(e).__name__} on a valid input: {e}", rp, layer="L3")
         return None
+    for k, (b, a) in enumerate(zip(before, args)):
+        if snapshot(a) != b:
+            chk.fail(key + ":argument-modified", f"positional argument {k} of the call was modified in place", rp, layer="L3")
+    return out
 
 
 def impl_linear(W, alpha, groups=None, route="direct"):
@@ -489,8 +504,264 @@ def stream_malformed(chk, i, rng):
     chk.count(None, n=2)
 
 
+# ------------------------------------------------------------------ round-3 families: representation, corners, routes
+FUNCS = ("linear_prox_grad", "group_linear_prox_grad", "mlp_prox_grad", "group_mlp_prox_grad")
+# Behaviour of the UNCHANGED tree at representation corners that is outside what the estimators ever pass (weights are float
+# ndarrays): observed, reported to the coordinator, recorded in the evidence notes, not a failure of C05.  Anything else is.
+ASIS_EXCEPTIONS = {
+    ("group_linear_prox_grad", "list"): "AttributeError", ("group_linear_prox_grad", "tuple"): "AttributeError",
+    ("mlp_prox_grad", "list"): "AttributeError", ("mlp_prox_grad", "tuple"): "AttributeError",
+    ("group_mlp_prox_grad", "list"): "AttributeError", ("group_mlp_prox_grad", "tuple"): "AttributeError",
+    ("mlp_prox_grad", "bool"): "TypeError", ("group_mlp_prox_grad", "bool"): "TypeError",
+}
+_noted = set()
+
+
+def observe(chk, tag, text):
+    chk.dist["observation (not a failure): " + tag] += 1
+    if tag not in _noted:
+        _noted.add(tag)
+        chk.notes.append("observation on the unchanged tree, " + tag + ": " + text)
+
+
+def array_variants(A):
+    out = {"fortran": np.asfortranarray(A)}
+    big = np.full((2 * A.shape[0], A.shape[1]), 7.5)
+    big[::2] = A
+    out["view-rows"] = big[::2]
+    out["view-negstride"] = A[:, ::-1].copy()[:, ::-1]
+    out["transposed"] = np.ascontiguousarray(A.T).T
+    ro = A.copy()
+    ro.setflags(write=False)
+    out["readonly"] = ro
+    out["float32"] = A.astype(np.float32)
+    if np.all(A == np.round(A)):
+        out["int64"], out["int32"] = A.astype(np.int64), A.astype(np.int32)
+    if np.all((A == 0) | (A == 1)):
+        out["bool"] = A.astype(bool)
+    out["list"] = A.tolist()
+    out["tuple"] = tuple(map(tuple, A.tolist()))
+    return out
+
+
+def call_all(W, V, U, alpha, M, groups, route="direct"):
+    return {"linear_prox_grad": lambda: impl_linear(W, alpha, route=route),
+            "group_linear_prox_grad": lambda: impl_linear(W, alpha, groups, route=route),
+            "mlp_prox_grad": lambda: impl_mlp(V, U, alpha, M, route=route),
+            "group_mlp_prox_grad": lambda: impl_mlp(V, U, alpha, M, groups, route=route)}
+
+
+def flat(r):
+    return np.concatenate([np.ravel(np.asarray(x, dtype=float)) for x in (r if isinstance(r, tuple) else (r,))])
+
+
+def stream_repr(chk, i, rng):
+    """metamorphic: the same values in another representation (dtype, memory layout, read-only, list/tuple, scalar and group
+    containers) give the same result as the float64 C-contiguous reference, raise nothing new and leave the caller's data alone"""
+    d, hv, hu = int(rng.integers(1, 5)), int(rng.integers(1, 5)), int(rng.integers(1, 5))
+    mode = ("eighths", "integral", "zero-one")[i % 3]
+    if mode == "eighths":
+        mk = lambda sh: rng.integers(-32, 33, size=sh) / 8.0      # exactly representable in float32 as well
+    elif mode == "integral":
+        mk = lambda sh: rng.integers(-4, 5, size=sh).astype(float)
+    else:
+        mk = lambda sh: rng.integers(0, 2, size=sh).astype(float)
+    W, V, U = mk((d, hv)), mk((d, hv)), mk((d, hu))
+    V[:, 0] = 1.0                                                   # non-zero skip rows
+    alpha = float(rng.choice([0.0, 0.125, 0.5, 2.0]))
+    M = float(rng.choice([0.0, 0.5, 1.0, 2.0]))
+    labels = rng.integers(0, int(rng.integers(1, d + 1)), size=d)
+    groups = [[int(j) for j in rng.permutation(np.nonzero(labels == k)[0])] for k in np.unique(labels)]
+    rp = {"op": "repr", "W": W.tolist(), "V": V.tolist(), "U": U.tolist(), "alpha": alpha, "M": M, "groups": groups}
+    ref = {}
+    for name, f in call_all(W, V, U, alpha, M, groups).items():
+        ref[name] = guarded(chk, name, rp, f)
+    if any(v is None for v in ref.values()):
+        chk.count(None)
+        return
+    sc = scale_of(W, V, U, [alpha])
+    ok = True
+
+    def run_variant(tag, calls, tol, inputs):
+        nonlocal ok
+        before = [snapshot(a) for a in inputs]
+        for name, f in calls.items():
+            try:
+                r = f()
+            except Exception as e:  # noqa
+                want = ASIS_EXCEPTIONS.get((name, tag))
+                if want is not None and want in [c.__name__ for c in type(e).__mro__]:
+                    observe(chk, f"{name} on {tag} input raises {type(e).__name__}",
+                            f"{name}(<{tag} of {np.asarray(inputs[0], dtype=float).shape} values>, ...) -> {type(e).__name__}: {str(e)[:120]}")
+                    continue
+                chk.fail(f"{name}:repr:{tag}:raised", f"{type(e).__name__} for the {tag} representation of an input the float64 call accepts: {e}",
+                         dict(rp, variant=tag), layer="L3")
+                ok = False
+                continue
+            a, b = flat(r), flat(ref[name])
+            if a.shape != b.shape or not np.all(np.abs(a - b) <= tol * (1 + sc)):
+                chk.fail(f"{name}:repr:{tag}", f"result differs from the float64 C-contiguous call: {a.tolist()} vs {b.tolist()}",
+                         dict(rp, variant=tag), layer="L3")
+                ok = False
+        if [snapshot(a) for a in inputs] != before:
+            chk.fail(f"prox:repr:{tag}:argument-modified", "an argument was modified in place", dict(rp, variant=tag), layer="L3")
+            ok = False
+        chk.dist["repr variant " + tag] += 1
+
+    vW, vV, vU = array_variants(W), array_variants(V), array_variants(U)
+    for tag in vW:
+        if tag not in vV or tag not in vU:
+            continue
+        run_variant(tag, call_all(vW[tag], vV[tag], vU[tag], alpha, M, groups), 1e-5 if tag == "float32" else RTOL, [vW[tag], vV[tag], vU[tag], groups])
+    # scalars: 0-d arrays, numpy scalars, python ints when integral
+    for tag, conv in (("scalar-0d", lambda z: np.array(z)), ("scalar-np.float64", np.float64),
+                      ("scalar-int", lambda z: int(z) if float(z).is_integer() else z)):
+        a2, M2 = conv(alpha), conv(M)
+        run_variant(tag, call_all(W, V, U, a2, M2, groups), RTOL, [W, V, U, groups])
+    # group containers
+    g_np = [np.array(g, dtype=np.int64) for g in groups]
+    g_32 = [np.array(g, dtype=np.int32) for g in groups]
+    for tag, gs in (("groups-int64-arrays", g_np), ("groups-int32-arrays", g_32)):
+        calls = call_all(W, V, U, alpha, M, gs)
+        run_variant(tag, {k: calls[k] for k in ("group_linear_prox_grad", "group_mlp_prox_grad")}, RTOL, [W, V, U, gs])
+    # groups given as tuples: numpy reads W[(i, j)] as the ELEMENT W[i, j]; check_groups and the `groups: [list, None]` constraint
+    # let a list of tuples through.  Observed on the unchanged tree, reported; recorded, not failed (see the final report).
+    gt = [tuple(g) for g in groups]
+    if any(len(g) >= 2 for g in groups):
+        try:
+            r = impl_linear(W, alpha, gt)
+            rows = sorted({j for g in groups for j in g})
+            if not np.all(np.abs(np.asarray(r)[rows] - np.asarray(ref["group_linear_prox_grad"])[rows]) <= RTOL * (1 + sc)):
+                observe(chk, "groups given as tuples are read as multi-dimensional indices",
+                        "group_linear_prox_grad([(0, 1), (2,)], W, alpha) != group_linear_prox_grad([[0, 1], [2]], W, alpha): W[(0, 1)] is the element "
+                        "W[0, 1]; reachable through SparseLinearModel(groups=[(0, 1), (2,)]).fit(X) (check_groups returns the tuples unchanged)")
+        except Exception as e:  # noqa
+            observe(chk, "groups given as tuples raise " + type(e).__name__, str(e)[:160])
+    chk.count(("repr", mode, d, hv, hu, alpha, M, tuple(map(tuple, groups))))
+    if ok:
+        chk.traces += 1
+
+
+def relcmp(chk, key, got, exp, scale, rp, exact_zero):
+    got, exp = np.asarray(got, dtype=float), np.asarray(exp, dtype=float)
+    if got.shape != exp.shape or not np.all(np.abs(got - exp) <= RTOL * scale):
+        chk.fail(key + ":value", f"implementation differs from the model (relative to scale {scale}): impl={got.tolist()} model={exp.tolist()}", rp)
+        return False
+    if exact_zero and np.any((got == 0) != (exp == 0)):
+        chk.fail(key + ":exact-zero", f"exact-zero pattern differs: impl={got.tolist()} model={exp.tolist()}", rp)
+        return False
+    return True
+
+
+def corner_cases():
+    """(tag, W, V, U, alpha, M, groups, expectation) : sizes 1, inclusive interval ends, adjacent doubles, exact ties, -0.0, 1e+-150"""
+    out = []
+    up, dn = (lambda z: float(np.nextafter(z, np.inf))), (lambda z: float(np.nextafter(z, -np.inf)))
+    for c in (1.0, 0.125, 8.0, 2.0 ** 500, 2.0 ** -500):      # powers of two: every scaling below is exact
+        w = np.array([[3.0 * c, 4.0 * c]])            # ||w|| = 5c exactly (9c^2 + 16c^2 = 25c^2 and its root are exact)
+        u = np.array([[2.0 * c, -2.0 * c, 1.0 * c]])
+        for tag, a, want in (("alpha=norm", 5.0 * c, "zero"), ("alpha=next-above-norm", up(5.0 * c), "zero"),
+                             ("alpha=next-below-norm", dn(5.0 * c), "kept"), ("alpha=0", 0.0, "identity")):
+            out.append((f"lasso-boundary c={c:g} {tag}", w, w, u, a, 1.0, [[0]], want))
+        # hierarchical operator exactly on a breakpoint: nv = 5c, |u| = (2c, 2c, c), M = 1: w_0 = 5c - alpha = 2c at alpha = 3c
+        for tag, a in (("alpha-on-breakpoint", 3.0 * c), ("alpha-next-above", up(3.0 * c)), ("alpha-next-below", dn(3.0 * c))):
+            out.append((f"hier-tie c={c:g} {tag}", w, w, u, a, 1.0, [[0]], None))
+    for x, y in ((2.0, 3.0), (0.5, -0.25), (1.0, 0.0), (-1.0, -0.0)):
+        for a in (0.0, 0.25, 1.0, 2.0):
+            for M in (0.0, 1.0, 10.0):
+                out.append((f"one-feature-one-unit x={x:g} y={y:g}", np.array([[x]]), np.array([[x]]), np.array([[y]]), a, M, [[0]], None))
+    Wn = np.array([[1.0, -0.0], [-0.0, 2.0], [0.5, 0.5]])
+    Un = np.array([[-0.0, 1.0, 0.0], [2.0, -0.0, -2.0], [-0.0, -0.0, 0.0]])
+    for a in (0.0, 0.5):
+        for M in (0.0, 1.0):
+            out.append(("negative-zeros one group", Wn, Wn, Un, a, M, [[2, 0, 1]], None))
+            out.append(("negative-zeros singletons", Wn, Wn, Un, a, M, [[1], [2], [0]], None))
+    return out
+
+
+CORNERS = corner_cases()
+
+
+def stream_corner(chk, i, rng):
+    """degenerate sizes and exact boundary values, both routes (module functions and _update_weights with an identity step)"""
+    tag, W, V, U, alpha, M, groups, want = CORNERS[i % len(CORNERS)]
+    route = "update" if i % 2 == 1 else "direct"      # len(CORNERS) is odd: the second pass swaps the routes
+    rp = {"op": "corner", "tag": tag, "W": W.tolist(), "V": V.tolist(), "U": U.tolist(), "alpha": alpha, "M": M, "groups": groups, "route": route}
+    c = float(np.max(np.abs(W)))
+    scale = max(c, float(np.max(np.abs(U))), alpha)
+    ok = True
+    for grouped in (False, True):
+        gs = groups if grouped else None
+        key = ("group_" if grouped else "") + "linear_prox_grad:corner"
+        got = guarded(chk, key, rp, impl_linear, W, alpha, gs, route=route)
+        exp = model_linear(chk, W, alpha, gs)
+        if got is not None:
+            rows = range(W.shape[0]) if not grouped else sorted({j for g in groups for j in g})
+            for j in rows:
+                ok &= relcmp(chk, key, got[j], exp[j], scale, dict(rp, row=j), True)
+            if want == "zero" and np.any(np.asarray(got) != 0):
+                chk.fail(key + ":not-zero", f"||w|| <= alpha (exactly) but the output is not exactly zero: {np.asarray(got).tolist()}", rp, layer="L3")
+                ok = False
+            if want == "kept" and np.any(np.asarray(got) == 0):
+                chk.fail(key + ":spurious-zero", f"alpha is the double just below ||w|| but the row was zeroed: {np.asarray(got).tolist()}", rp, layer="L3")
+                ok = False
+            if want == "identity" and not np.array_equal(np.asarray(got), W):
+                chk.fail(key + ":alpha0", f"alpha = 0 must return the input: {np.asarray(got).tolist()}", rp, layer="L3")
+                ok = False
+            if 1e-100 < c < 1e100 and len(groups) == 1 or not grouped:
+                if 1e-100 < c < 1e100:
+                    ok &= oracle_lasso(chk, key, W[0] if not grouped else W[groups[0]].ravel(),
+                                       np.asarray(got)[0] if not grouped else np.asarray(got)[groups[0]].ravel(), alpha, rng, rp)
+        key = ("group_" if grouped else "") + "mlp_prox_grad:corner"
+        res = guarded(chk, key, rp, impl_mlp, V, U, alpha, M, gs, route=route)
+        em = model_mlp(chk, V, U, alpha, M, gs)
+        if res is not None:
+            for j in (range(V.shape[0]) if not grouped else sorted({j for g in groups for j in g})):
+                ok &= relcmp(chk, key + ":beta", res[0][j], em[0][j], scale, dict(rp, row=j), False)
+                ok &= relcmp(chk, key + ":theta", res[1][j], em[1][j], scale, dict(rp, row=j), False)
+            if 1e-100 < c < 1e100:
+                blocks = [[j] for j in range(V.shape[0])] if not grouped else groups
+                for g in blocks:
+                    ok &= oracle_hier(chk, key, V[g].ravel(), U[g].ravel(), np.asarray(res[0])[g].ravel(), np.asarray(res[1])[g].ravel(), alpha, M, rng, dict(rp, group=g))
+        else:
+            ok = False
+    chk.dist["corner: " + tag.split(" c=")[0].split(" x=")[0]] += 1
+    chk.dist["corner route: " + route] += 1
+    chk.count(("corner", tag, route))
+    if ok:
+        chk.traces += 1
+
+
+def stream_extreme(chk, i, rng):
+    """magnitudes whose squares leave the double range: what the code does there is recorded (observation); finite results are
+    still compared with the float model"""
+    c = [1e200, 1e-200, 3e-310][i % 3]
+    W = np.array([[3.0 * c, 4.0 * c]])
+    U = np.array([[2.0 * c, -1.0 * c]])
+    alpha, M = [0.0, 1.0][(i // 3) % 2], 1.0
+    rp = {"op": "extreme", "W": W.tolist(), "U": U.tolist(), "alpha": alpha, "M": M}
+    got = guarded(chk, "linear_prox_grad:extreme", rp, impl_linear, W, alpha)
+    exp = np.asarray(model_linear(chk, W, alpha), dtype=float)
+    res = guarded(chk, "mlp_prox_grad:extreme", rp, impl_mlp, W, U, alpha, M)
+    em = model_mlp(chk, W, U, alpha, M)
+    for name, g, e in (("linear_prox_grad", got, exp), ("mlp_prox_grad:beta", None if res is None else res[0], np.asarray(em[0], dtype=float)),
+                       ("mlp_prox_grad:theta", None if res is None else res[1], np.asarray(em[1], dtype=float))):
+        if g is None:
+            continue
+        g = np.asarray(g, dtype=float)
+        # np.maximum / np.minimum propagate NaN, the model's nmax / nmin do not: only finite results are compared
+        if np.all(np.isfinite(g)) and not np.all(np.abs(g - e) <= RTOL * max(np.max(np.abs(W)), alpha)):
+            chk.fail(name + ":extreme", f"implementation differs from the float model at magnitude {c}: impl={g.tolist()} model={e.tolist()}", rp)
+        if not np.all(np.isfinite(g)):
+            observe(chk, f"{name.split(':')[0]} is not finite when the squared entries {'overflow' if c > 1 else 'underflow'}",
+                    f"{name.split(':')[0]}(W={W.tolist()}" + (f", U={U.tolist()}" if "mlp" in name else "") + f", alpha={alpha}" + (", M=1.0" if "mlp" in name else "") + f") -> {g.tolist()}")
+    chk.dist[f"extreme magnitude {c:g}"] += 1
+    chk.count(None)
+
+
 STREAMS = {"rows": (stream_rows, 700, 12000), "group_exh": (stream_group_exh, 375, 3750), "group_rand": (stream_group_rand, 420, 8000),
-           "zero_skip": (stream_zero_skip, 80, 800), "malformed": (stream_malformed, 40, 400)}
+           "zero_skip": (stream_zero_skip, 80, 800), "malformed": (stream_malformed, 40, 400),
+           "repr": (stream_repr, 45, 450), "corner": (stream_corner, 2 * len(CORNERS), 4 * len(CORNERS)), "extreme": (stream_extreme, 6, 6)}
 
 
 def main():
